@@ -285,6 +285,24 @@ def _is_name_of(f, nid: int, k: ast.AST, s_: str) -> bool:
     return True
 
 
+def _index_type_fallthrough(R, site) -> bool:
+    """The raise is what is left, in a method of Term, after isinstance tests of the term's own index have all failed (wherever
+    in the class that rendering now lives)."""
+    if not site.func.startswith(f'{P}.Term.'):
+        return False
+    try:
+        f = Fn(R, site.func)
+    except Exception:
+        return False
+    for n in f.raises('TypeError'):
+        if getattr(n.ast, 'lineno', None) != site.line:
+            continue
+        atoms = [(a, tr) for (a, tr, _tn) in f.guard_atoms(n.id)]
+        tests = [(a, tr) for (a, tr) in atoms if is_call(a, 'isinstance') and len(a.args) == 2 and text(a.args[0]) == 'self.index_']
+        return bool(tests) and all(not tr for (_a, tr) in tests)
+    return False
+
+
 def _beliefs(R, f_escape: Escape):
     """Allowlisted sites: (predicate on Site) -> (reason, fact-check callable returning (ok, detail))."""
     fd = folder(R.repo, P)
@@ -343,7 +361,17 @@ def _beliefs(R, f_escape: Escape):
                 prov = bool(names) and names <= tainted and any(
                     isinstance(a, ast.Assign) and any(method_call(x, 'groupdict') for x in ast.walk(a.value)) for a in ast.walk(fi_.node))
         if not prov:
-            return (False, 'the enum key does not come from match.groupdict()')
+            # where does it come from, then?  From the match object by another route (lastgroup, group(...)): which names that
+            # can yield is a fact about the pattern that this rule does not read.  From anything else (a piece of the text being
+            # parsed): nothing restricts it to the members of the enumeration - that is a finding wherever it is written.
+            mparams = [a_.arg for a_ in fi_.node.args.args if a_.annotation is not None and text(a_.annotation).startswith('Match')]
+            via_match = tainted_names(fi_.node, mparams) | set(mparams) if mparams else set()
+            for n in ast.walk(fi_.node):
+                if isinstance(n, ast.Subscript) and text(n)[:120] == site.key and isinstance(n.ctx, ast.Load):
+                    names = {x.id for x in ast.walk(n.slice) if isinstance(x, ast.Name)}
+                    if names and names <= via_match:
+                        return (None, 'the enum key comes from the match object, but not through match.groupdict(): which names it can take was not read')
+            return (False, 'the enum key does not come from match.groupdict()', 'positive')
         t = fd.get('term_re')
         gd = rx.parse(t.pattern, t.flags).state.groupdict
         types = fold_enum(R.repo, P, 'Type')
@@ -670,7 +698,8 @@ def _beliefs(R, f_escape: Escape):
          'exactly one named `_` group matched', fact_single_group),
         (lambda s: s.kind == 'assert' and 'symbol == functions[name]' in s.key, 'function symbols of one name are equal', fact_functions_equal),
         (lambda s: s.kind == 'assert' and 'self.name == other.name' in s.key, 'combine() is called on same-name symbols only', fact_same_name),
-        (lambda s: s.exc == 'TypeError' and s.kind == 'raise' and (s.func.split('.')[-1] in ('__str__', 'resolve_by_type_pair') or '.Symbol.combine' in s.func or s.func.endswith('.Term.code')),
+        (lambda s: s.exc == 'TypeError' and s.kind == 'raise' and (s.func.split('.')[-1] in ('__str__', 'resolve_by_type_pair') or '.Symbol.combine' in s.func or s.func.endswith('.Term.code')
+                                                                 or _index_type_fallthrough(R, s)),
          'defensive TypeError: index is int|str|None by construction', fact_typeerror_unreachable),
         (lambda s: s.kind == 'unpack of split()', 'the statement contains `=`', fact_equals_present),
         (lambda s: s.kind == 'Enum[name]', 'regex group names are Type members', fact_type_names),
@@ -698,10 +727,17 @@ def r3_escape(R) -> None:
             R.ok(construct, f'{s.exc} may propagate ({s.kind}): one of the parser\'s own errors', detail=s.key[:80], trivial=True)
             continue
         matched = False
+        # a may-raise site (not an explicit raise) in a statement the reference tree does not have: whether its failing case can
+        # arise is an argument about values this analysis does not make either way - only sites that were there (and whose
+        # supporting fact or handler has gone) and explicit raises are findings
+        fresh = s.kind != 'raise' and R.repo.new_statement(s.func, s.line)
         for (pred, reason, fact) in beliefs:
             if pred(s):
                 matched = True
-                ok, detail = fact(s)
+                res = fact(s)
+                ok, detail = res[0], res[1]
+                if ok is False and fresh and len(res) < 3:
+                    ok, detail = None, f'{detail} (the statement is new: the supporting fact was not established in the form it is now written)'
                 if ok is None:
                     R.inconclusive(construct, f'{s.exc} from `{s.key[:60]}` ({s.kind}): {detail}')
                     break
@@ -710,7 +746,10 @@ def r3_escape(R) -> None:
                         f'{s.exc} may escape parse_model from `{s.key[:70]}` ({s.kind}): the supporting fact "{reason}" does not hold: {detail}',
                         where=f'fsic/parser.py:{s.line}')
                 break
-        if not matched:
+        if not matched and fresh:
+            R.inconclusive(construct, f'{s.exc} from `{s.key[:70]}` ({s.kind} in {s.func.split(".")[-1]}): a new statement that can raise; whether its '
+                                      f'failing case can arise for some input was not decided')
+        elif not matched:
             R.violation(construct, f'escape:{s.exc}:{s.kind}:{s.key[:60]}',
                         f'{s.exc} may propagate out of parse_model from `{s.key[:80]}` ({s.kind} in {s.func.split(".")[-1]}): '
                         f'not one of ParserError / SymbolError / IndentationError', where=f'fsic/parser.py:{s.line}')
